@@ -119,10 +119,38 @@ class Templates:
                             sub = self.template_of_site(cb, site, depth + 1)
             if sub is not None and default == ['']:
                 return [('opt', sub)]
+        if t[0] == 'call' and t[1].split('::')[-1] in ('unwrap_or_default', 'unwrap_or', 'unwrap_or_else') and t[2] and \
+                t[2][0][0] == 'call' and t[2][0][1] == 'std::option::Option::<T>::map':
+            # `opt.map(|t| format!(..)).unwrap_or_default()` : the same optional sub-template, default "" only
+            inner = t[2][0]
+            default_ok = t[1].endswith('unwrap_or_default') or (len(t[2]) > 1 and self.template_of_term(body, t[2][1], depth + 1) == [''])
+            fl = flow_of(body)
+            call_t = body.blocks[inner[3]]['term']
+            sub = None
+            for o in fl.origins(call_t['args'][1]):
+                if o.kind == 'agg' and self.F.body(o.key) is not None:
+                    cb = self.F.body(o.key)
+                    cfl = flow_of(cb)
+                    for fb, ft in cfl.calls(lambda c: c in FORMAT_CALLS):
+                        site = self.site_of_call(cb, fb)
+                        if site is not None:
+                            sub = self.template_of_site(cb, site, depth + 1)
+            if sub is not None and default_ok:
+                return [('opt', sub)]
         cls = sanitiser_class(t)
         if cls:
             return [('hole', cls, desc)]
         return [('hole', 'raw', desc)]
+
+    def const_str(self, body, name):
+        """value of a `const NAME: &str` item visible from `body` (same module first), else None"""
+        mod = body.path.split('::')[0]
+        cands = [v for k, v in self.F.consts.items() if k.split('::')[-1] == name and isinstance(v.get('val'), str) and v.get('ty', '').endswith('str')]
+        same = [v for k, v in self.F.consts.items() if k == '%s::%s' % (mod, name) and isinstance(v.get('val'), str) and v.get('ty', '').endswith('str')]
+        pick = same or (cands if len(cands) == 1 else [])
+        if pick and pick[0]['val'] != 'None':
+            return pick[0]['val']
+        return None
 
     def template_of_site(self, body, site, depth):
         items = []
@@ -141,6 +169,9 @@ class Templates:
             l = self.local_by_name(body, name)
             fl = flow_of(body)
             if l is None:
+                cs = self.const_str(body, name)
+                if cs is not None:
+                    return [cs]          # a named string constant is a literal piece of the template
                 # captured variable of a closure: resolve in the parent
                 for idx, n in body.upvars.items():
                     if n == name and body.parent:
